@@ -829,12 +829,31 @@ func (c *Case) Gtab() (gtab.LookupList, *gdef.Table, []gtab.LookupIndex) {
 	return ll, gd, lookups
 }
 
+// toInfo builds the input sequence the way a caller does who splits one rune
+// slice into per-glyph pieces: every glyph's Text is a sub-slice of ONE shared
+// array, so its capacity reaches into the text of the glyphs that follow.  A
+// lookup that appends to a glyph's Text in place (instead of building the new
+// text in memory of its own) then overwrites the text of later glyphs, which the
+// text-conservation oracle sees.
 func toInfo(s []G) []glyph.Info {
+	total := 0
+	for _, g := range s {
+		total += len(g.Text)
+	}
+	shared := make([]rune, 0, total+4)
 	out := make([]glyph.Info, len(s))
 	for i, g := range s {
-		out[i] = glyph.Info{GID: glyph.ID(g.Gid), Text: append([]rune(nil), g.Text...),
+		a := len(shared)
+		shared = append(shared, g.Text...)
+		var text []rune
+		if g.Text != nil {
+			text = shared[a:len(shared)] // capacity extends to the end of the shared array
+		}
+		out[i] = glyph.Info{GID: glyph.ID(g.Gid), Text: text,
 			XOffset: funit.Int16(g.X), YOffset: funit.Int16(g.Y), Advance: funit.Int16(g.A)}
 	}
+	// sentinel runes behind the last glyph's text
+	shared = append(shared, 0x2603, 0x2603, 0x2603, 0x2603)
 	return out
 }
 
